@@ -633,6 +633,15 @@ func (x *Exec) appendBuiltin(fr *Frame, st *State, ins ssa.Instruction, args []V
 		x.assume(st, tb.Forall([]*Term{k}, tb.And(
 			tb.Implies(inNew, tb.Eq(tb.Select(nA, k), srcElem)),
 			tb.Implies(tb.And(tb.Not(inNew), inOld), tb.Eq(tb.Select(nA, k), oldElem)))))
+		// appending a few elements (append(buf, 'a', 'b')): state the new elements outright as well,
+		// so that reading them back needs no quantifier instantiation
+		if n.Op == "bv" && n.Val.Sign() > 0 && n.Val.Int64() <= 8 && !tIsStr {
+			for j := int64(0); j < n.Val.Int64(); j++ {
+				idx := tb.Add(start, tb.BVInt(j, 64))
+				se := tb.Select(tb.Select(h, t.L[0]), tb.Add(t.L[1], tb.BVInt(j, 64)))
+				x.assume(st, tb.Eq(tb.Select(nA, idx), se))
+			}
+		}
 		x.heapSet(st, cls, tb.Ite(nothing, h, tb.Store(h, rArr, nA)))
 	}
 	return res
